@@ -89,6 +89,8 @@ type BlockUtils struct {
 	Gate      Gate
 	Validates []ValidateCall
 	Proposals []ProposalCall
+	// AcceptAll makes this node's validator approve everything, even a missing block (a careless consumer: C12 only).
+	AcceptAll bool
 	// Reject, when set, lets a case make this node's validator reject additional blocks.
 	Reject func(b *Block) bool
 	// Proposed holds every block this node's RequestNewBlockProposal returned.
@@ -140,6 +142,9 @@ func (u *BlockUtils) ValidateBlockProposal(ctx context.Context, h primitives.Blo
 		u.Gate("validate", ctx, h)
 	}
 	err := ValidProposal(h, block, hash, prevBlock)
+	if u.AcceptAll {
+		err = nil
+	}
 	if err == nil && u.Reject != nil && u.Reject(AsBlock(block)) {
 		err = errors.New("rejected by this node's verdict table")
 	}
@@ -186,6 +191,9 @@ func (m *Membership) RequestOrderedCommittee(ctx context.Context, h primitives.B
 		m.Gate("committee", ctx, h)
 	}
 	if fail {
+		if ctx.Err() != nil { // a consumer that honours its context
+			return nil, ctx.Err()
+		}
 		return nil, errors.New("committee not available yet")
 	}
 	return m.Committee(h), nil
